@@ -128,6 +128,16 @@ def shard(col, shard_i, ngrammars, ninputs, full):
         outs = [(c, o) for c, o in outs if o[0] != 'timeout']     # running time is not part of the property (no verdict)
         if not outs:
             continue
+        # with parse information on in both, the parseinfo entries themselves must not depend on the memo settings either
+        full = [(results[i][0], results[i][1]) for i in range(start, start + n)
+                if results[i][2] is not None and results[i][0].settings.parseinfo and results[i][1][0] == 'ok']
+        for c, o in full[1:]:
+            col.count('pairs.compared.with-parseinfo')
+            if o != full[0][1]:
+                col.violation(f'oracle:config-changes-parseinfo:{c.tag}:{sorted(c.settings.kwargs())}',
+                              f'the parseinfo entries differ between settings {full[0][0].settings.kwargs()} and {c.settings.kwargs()}',
+                              {'oracle': 'same parseinfo under every memo configuration', 'case': c.describe(),
+                               'reference_settings': full[0][0].settings.kwargs(), 'reference': full[0][1], 'outcome': o})
         ref_c, ref = outs[0]
         for c, o in outs[1:]:
             col.count('pairs.compared')
